@@ -35,63 +35,138 @@ def _col_access(node, C):
 
 
 # ---------------------------------------------------------------------------------------------- R-CLOSED
+class _NotModelled(Exception):
+    pass
+
+
+class _ForeignComparison(Exception):
+    pass
+
+
+def _eval_overlap(f, params, C, state):
+    """Abstract evaluation of aabb_overlap's body on one order-type state: state[(k, 0)] = sign(a[k,0] - b[k,1]) and
+    state[(k, 1)] = sign(b[k,0] - a[k,1]), each in {-1, 0, +1}.  Supports return / if / for-in-range(const) / and / or / not /
+    comparisons between a bound of one box and the opposite bound of the other box on the same axis."""
+    def side(n, env):
+        if isinstance(n, ast.Subscript) and isinstance(n.value, ast.Name) and n.value.id in params:
+            el = index_elts(n)
+            if len(el) == 2:
+                k = env.get(u(el[0]), const(el[0], C))
+                c = env.get(u(el[1]), const(el[1], C))
+                if isinstance(k, int) and isinstance(c, int):
+                    return (params.index(n.value.id), k, c)
+        return None
+
+    def cmp_(op, x, y, env):
+        sx, sy = side(x, env), side(y, env)
+        if sx is not None and sy is not None and (sx[1] != sy[1] or sx[0] == sy[0] or sx[2] == sy[2]):
+            raise _ForeignComparison("`%s %s %s` relates two bounds that the closed-interval test never compares (wrong axis, wrong column or the same box twice); "
+                                     "that relation is independent of the six relevant ones, so the result cannot be the overlap predicate" % (u(x), op, u(y)))
+        if sx is None or sy is None:
+            raise _NotModelled("comparison `%s %s %s` is not between a lower bound of one box and the upper bound of the other on one axis" % (u(x), op, u(y)))
+        # bring into the form  lo(P) ? hi(Q)
+        if sx[2] == 1:          # x is an upper bound: hi(P) op lo(Q)  ==  lo(Q) op' hi(P)
+            sx, sy = sy, sx
+            op = {"<": ">", ">": "<", "<=": ">=", ">=": "<=", "==": "==", "!=": "!="}[op]
+        k = sx[1]
+        sgn = state[(k, 0)] if sx[0] == 0 else state[(k, 1)]      # sign(lo(P) - hi(Q))
+        return {"<": sgn < 0, "<=": sgn <= 0, ">": sgn > 0, ">=": sgn >= 0, "==": sgn == 0, "!=": sgn != 0}[op]
+
+    def ev(e, env):
+        if isinstance(e, ast.BoolOp):
+            vals = [ev(v, env) for v in e.values]
+            return all(vals) if isinstance(e.op, ast.And) else any(vals)
+        if isinstance(e, ast.UnaryOp) and isinstance(e.op, ast.Not):
+            return not ev(e.operand, env)
+        if isinstance(e, ast.Compare):
+            out = True
+            for op, x, y in compare_triples(e):
+                out = out and cmp_(op, x, y, env)
+            return out
+        if isinstance(e, ast.Constant) and isinstance(e.value, bool):
+            return e.value
+        if isinstance(e, ast.Name) and e.id in env and isinstance(env[e.id], bool):
+            return env[e.id]
+        raise _NotModelled("expression `%s`" % u(e))
+
+    class _Ret(Exception):
+        def __init__(self, v):
+            self.v = v
+
+    def run(body, env):
+        for st in body:
+            if isinstance(st, ast.Return):
+                raise _Ret(ev(st.value, env))
+            elif isinstance(st, ast.If):
+                run(st.body if ev(st.test, env) else st.orelse, env)
+            elif isinstance(st, ast.For) and isinstance(st.iter, ast.Call) and call_name(st.iter) == "range" and len(st.iter.args) == 1 \
+                    and isinstance(const(st.iter.args[0], C), int) and isinstance(st.target, ast.Name):
+                for i in range(const(st.iter.args[0], C)):
+                    e2 = dict(env)
+                    e2[st.target.id] = i
+                    run(st.body, e2)
+                    for kk, vv in e2.items():
+                        if kk != st.target.id:
+                            env[kk] = vv
+            elif isinstance(st, ast.Assign) and len(st.targets) == 1 and isinstance(st.targets[0], ast.Name):
+                env[st.targets[0].id] = ev(st.value, env)
+            elif isinstance(st, ast.Expr) and isinstance(st.value, ast.Constant):
+                continue
+            elif isinstance(st, (ast.Break, ast.Continue, ast.Pass)):
+                raise _NotModelled("statement `%s`" % u(st)) if not isinstance(st, ast.Pass) else None
+            else:
+                raise _NotModelled("statement `%s`" % u(st)[:60])
+    try:
+        run(strip_docstring(f.node.body), {})
+    except _Ret as r:
+        return r.v
+    raise _NotModelled("a path falls off the end of the function")
+
+
 def r_closed(idx, rep):
     rule = "R-CLOSED"
-    rep.rule(rule, "aabb_overlap is the conjunction of exactly the six closed comparisons a[k,0] <= b[k,1] and "
-                   "b[k,0] <= a[k,1], k = 0,1,2 (touching boxes overlap; no axis missing)", floor=6)
+    rep.rule(rule, "aabb_overlap is true exactly when, on all three axes, a.lo <= b.hi and b.lo <= a.hi (closed intervals: touching boxes "
+                   "overlap): abstract evaluation of the function body (return / if / for-in-range / and / or / not) on all 9^3 = 729 "
+                   "order types of the six bound pairs", floor=1)
+    import itertools
     f = idx.func(MOD + "::aabb_overlap")
     C = idx.module(MOD).constants
     params = f.params()
     if len(params) != 2:
         raise AnalysisError("aabb_overlap no longer takes two boxes")
-    body = strip_docstring(f.node.body)
-    rets = [s for s in iter_stmts(body) if isinstance(s, ast.Return)]
-    if len(rets) != 1 or len(body) != 1:
-        raise AnalysisError("aabb_overlap is no longer a single return expression; R-CLOSED cannot decide it")
-    expr = rets[0].value
-    comps = []
-    negated = False
-    if isinstance(expr, ast.UnaryOp) and isinstance(expr.op, ast.Not):
-        negated = True
-        parts = disjuncts(expr.operand)
-    else:
-        parts = conjuncts(expr)
-    for p in parts:
-        if not isinstance(p, ast.Compare):
-            raise AnalysisError("aabb_overlap: non-comparison term %s" % u(p))
-        for op, a, b in compare_triples(p):
-            if negated:  # not (a > b or ...)  ==  a <= b and ...
-                op = {"<": ">=", ">": "<=", "<=": ">", ">=": "<", "==": "!=", "!=": "=="}[op]
-            comps.append(norm_compare(op, a, b))
-
-    def side(n):
-        if isinstance(n, ast.Subscript) and isinstance(n.value, ast.Name) and n.value.id in params:
-            el = index_elts(n)
-            if len(el) == 2:
-                k, c = const(el[0], C), const(el[1], C)
-                if isinstance(k, int) and isinstance(c, int):
-                    return (params.index(n.value.id), k, c)
-        return None
-    got = {}
-    for op, a, b in comps:
-        sa, sb = side(a), side(b)
-        key = "%s %s %s" % (u(a), op, u(b))
-        if sa is None or sb is None:
-            rep.bad(rule, MOD + "::aabb_overlap|" + key, f.where, "term is not a comparison of box bounds")
-            continue
-        got[(sa, op, sb)] = key
-    want = {}
+    wrong = {}
+    try:
+        for signs in itertools.product((-1, 0, 1), repeat=6):
+            state = {(k, j): signs[2 * k + j] for k in range(3) for j in range(2)}
+            got = _eval_overlap(f, params, C, state)
+            want = all(v <= 0 for v in signs)
+            if got != want:
+                # attribute the disagreement to the relations that are decisive in this state
+                for k in range(3):
+                    for j in range(2):
+                        others_ok = all(v < 0 for (kk, jj), v in state.items() if (kk, jj) != (k, j))
+                        if others_ok:
+                            wrong.setdefault((k, j), []).append((state[(k, j)], got, want))
+                if not any(all(v < 0 for (kk, jj), v in state.items() if (kk, jj) != (k, j)) for k in range(3) for j in range(2)):
+                    wrong.setdefault("multi", []).append((signs, got, want))
+    except _ForeignComparison as e:
+        rep.bad(rule, MOD + "::aabb_overlap|only the six bound pairs are compared", f.where, str(e))
+        return
+    except _NotModelled as e:
+        raise AnalysisError("aabb_overlap: R-CLOSED cannot model %s" % e)
     for k in range(3):
-        want[((0, k, 0), "<=", (1, k, 1))] = "%s[%d,0] <= %s[%d,1]" % (params[0], k, params[1], k)
-        want[((1, k, 0), "<=", (0, k, 1))] = "%s[%d,0] <= %s[%d,1]" % (params[1], k, params[0], k)
-    for w, txt in want.items():
-        rep.check(w in got, rule, MOD + "::aabb_overlap|" + txt, f.where,
-                  "required closed comparison %s is missing (found: %s)" % (txt, sorted(got.values())),
-                  "present")
-    for g, txt in got.items():
-        if g not in want:
-            rep.bad(rule, MOD + "::aabb_overlap|extra " + txt, f.where,
-                    "comparison %s is not one of the six closed-interval tests (strict, wrong column or wrong axis)" % txt)
+        for j in range(2):
+            txt = "%s[%d,0] <= %s[%d,1]" % ((params[0], k, params[1], k) if j == 0 else (params[1], k, params[0], k))
+            w = wrong.get((k, j))
+            why = ""
+            if w:
+                sg, got, want = w[0]
+                why = "with every other bound pair overlapping, %s %s the function returns %s (closed-interval overlap: %s): %s" % (
+                    txt.split(" <= ")[0], {-1: "<", 0: "==", 1: ">"}[sg] + " " + txt.split(" <= ")[1], got, want,
+                    "touching boxes are reported as disjoint (strict comparison)" if sg == 0 else "the comparison is missing, reversed or on the wrong axis/column")
+            rep.check(not w, rule, MOD + "::aabb_overlap|" + txt, f.where, why, "closed")
+    if "multi" in wrong and not any(k != "multi" for k in wrong):
+        rep.bad(rule, MOD + "::aabb_overlap|combination of axes", f.where, "the result is wrong for the order type %s (returns %s)" % (wrong["multi"][0][0], wrong["multi"][0][1]))
 
 
 # ---------------------------------------------------------------------------------------------- traversal helpers
